@@ -287,6 +287,14 @@ def explore(ctx):
     if ctx.want("names"):
         shards = [[L, pre] for L in P.LETTERS for pre in (None, "##", "#b", "b#", "bb")]
         ctx.product("names", shards, gen_names)
+    if ctx.want("names"):
+        # very long names ("for any length"): runs and alternations of hundreds and thousands of accidentals
+        longs = []
+        for L in "CFB":
+            for n in (40, 200, 999, 1500, 4000):
+                longs += [L + "#" * n, L + "b" * n, L + "#b" * (n // 2), L + "b" * n + "#" * (n - 1)]
+        ctx.bound("very_long_names", "%d names of 40..7999 accidentals" % len(longs))
+        ctx.serial("names", longs)
     if ctx.want("enharmonic"):
         _PAIR_NAMES[0] = P.names(kp)
         ctx.bound("enharmonic_pairs", len(_PAIR_NAMES[0]) ** 2)
